@@ -10,7 +10,7 @@ import StraxModel.Model.NetPath
      caps    capacities of the mailboxes of the chain, source side first, joined by `,`
      savers  number of savers per mailbox, joined by `,`
   `c13.wire <lazy> <caps> <savers>`
-     answer `ok <mb_0>;<mb_1>;… B=<B> Blazy=<Blazy>` with `<mb> = <cap>:<lazy>:<can_drive flags>`
+     answer `ok <mb_0>;<mb_1>;… B=<B> Blazy=<Blazy> Bpool=<B + 1>` with `<mb> = <cap>:<lazy>:<can_drive flags>`
   `c13.rest <lazy> <caps> <savers> <N> <k> <pre> <post>`
      a source of N chunks; the pipeline runs under priority policy `pre` (`up` | `down` | `lag`) until the consumer
      has been handed k chunks, then the consumer is paused and everything else runs under `post` until nothing is
@@ -30,7 +30,7 @@ def parseWiring (lazy caps savers : String) : Option Wiring := do
   let caps ← parseNats caps
   let savers ← parseNats savers
   if caps.isEmpty || savers.length != caps.length then none else
-  pure ⟨lazy, caps, savers⟩
+  pure { lazy := lazy, caps := caps, savers := savers }
 
 def parsePolicy (s : String) : Option Policy :=
   if s == "up" then some .up else if s == "down" then some .down else if s == "lag" then some .lag else none
@@ -45,7 +45,7 @@ def showMb (mb : MB) : String :=
 
 def wireDesc (w : Wiring) : String := ";".intercalate ((wire w 0).mbs.map showMb)
 
-def showWire (w : Wiring) : String := s!"ok {wireDesc w} B={B w} Blazy={Blazy}"
+def showWire (w : Wiring) : String := s!"ok {wireDesc w} B={B w} Blazy={Blazy} Bpool={Bpool w}"
 
 /-- the bound that applies to this wiring -/
 def bound (w : Wiring) : Nat := if w.lazy then min Blazy (B w) else B w
